@@ -143,6 +143,7 @@ RunObs(v, rem) ==
        ELSE UNION {IF CanRemove(v, p) THEN RunObs(Rm(v, p), rem \ {p}) ELSE {[v |-> v, ok |-> FALSE]} : p \in lvl}
 
 Out(res, v, dev) == [res |-> res, view |-> v, dev |-> dev]
+Orphans(v) == {d \in v.dirs : ~\E l \in v.links : Pfx(d, l.d)}          \* directories that lead to no link
 Update(v, links, dev, fixed3) ==     \* links : set of [p |-> code-level link path, j |-> job]
   LET newp   == {l.p : l \in links}
       jobOf(p) == (CHOOSE l \in links : l.p = p).j
@@ -187,7 +188,12 @@ Outcomes(w, v, a) ==
                       first(p) == Min(pos(p))
                       leafnode == \E x, y \in links0 : first(x.p) > first(y.p) /\ StrictPfx(x.p, y.p)
                   IN IF leafnode THEN Rej
-                     ELSE IF FixedD3 \/ Existing(v, FALSE) = Existing(v, TRUE) THEN Update(v, links, dev, FixedD3)
+                     ELSE IF FixedD3 THEN Update(v, links, dev, TRUE)
+                     ELSE IF Existing(v, FALSE) = Existing(v, TRUE)
+                     THEN \* aftermath of D3: a directory orphaned by an earlier confused/aborted update is not part of the link
+                          \* tree and is never collected (such pre-states are unreachable once D3 is fixed)
+                          {IF Orphans(v) # {} /\ Orphans(o.view) # {} THEN [o EXCEPT !.dev = @ \cup {"D3"}] ELSE o
+                           : o \in Update(v, links, dev, FALSE)}
                      ELSE \* a directory called `job` is in play: whatever differs from the fixed algorithm is D3's doing
                           LET fixed == Update(v, links, dev, TRUE) IN
                           {IF \E i \in fixed : i.res = o.res /\ i.view = o.view THEN o ELSE [o EXCEPT !.dev = @ \cup {"D3"}]
